@@ -53,6 +53,8 @@ META = (META[0] + " " + META_EXTRA, META[1])
 
 def run(chk, tier):
     db = D.load("checks")
+    from ..rules import params as _PR
+    _PR.check(chk, db, ['_functional/', '_tuple/', '_utility/pair'], floor=40)
     n = 0
     for rec, name, neg in WRAPPERS:
         if rec:
